@@ -77,7 +77,8 @@ def configs(draw, reps):
         "budget": draw(st.integers(5, 60)),
         "popsize": draw(st.integers(2, 10)),
         "minimize": draw(st.booleans()),
-        "init": draw(st.sampled_from(["standard", "full"])),
+        "init": draw(st.sampled_from(["standard", "full", "grow", "pigrow", "ramped", "inject", "inject"])),
+        "inject_n": draw(st.integers(1, 6)),
         "gp_step": draw(st.sampled_from(["default", "crossover-heavy"])),
         "envs": [
             {"hashseed": draw(st.sampled_from([0, 1, 4242, "random"])), "dummies": draw(st.sampled_from([0, 1, 7, 50, 333])), "imports": draw(st.permutations(MODULES))[: draw(st.integers(0, len(MODULES)))]}
@@ -113,6 +114,17 @@ class CrossProcess(Facet):
         if (a["sha"], a["best"], a["best_fitness"]) != (b["sha"], b["best"], b["best_fitness"]):
             rec.fail("C08/stack/symbol-order-differs-between-runs" if rep == "stack" else f"C08/in-process/{rep}", f"two runs in the same process differ: {self.diff(case, None, None)}; grammar {spec_str(case['spec'])}")
             return
+        shared = run_inproc(case, repeats=3)
+        for k, s in enumerate(shared):
+            if (s["error"], s["sha"], s["best"], s["best_fitness"]) != (a["error"], a["sha"], a["best"], a["best_fitness"]):
+                full = run_inproc(case, full=True, repeats=3)
+                x, y = run_inproc(case, full=True), full[k]
+                d = next((f"first difference at evaluation #{i}: {p} vs {q}" for i, (p, q) in enumerate(zip(x["seq"], y["seq"])) if p != q), f"evaluation counts {x['n']} vs {y['n']}, best {x['best']}/{x['best_fitness']} vs {y['best']}/{y['best_fitness']}, error {x['error']} vs {y['error']}")
+                rec.fail(
+                    f"C08/in-process-shared-configuration/{rep}",
+                    f"search #{k + 1} of 3 run one after the other with the same grammar, initialiser ({case['init']}) and step objects but a fresh source/decider/representation of the same seed differs from a search with a freshly built configuration: {d}; algorithm {case['alg']}, seed {case['seed']}; grammar {spec_str(case['spec'])}",
+                )
+                return
         for env in case["envs"]:
             c = run_child(case, env)
             rec.label(f"child:hashseed={env['hashseed']}", f"child:dummies={env['dummies']}")
